@@ -149,6 +149,8 @@ def runCase (tmplS opsS extS obsS : String) : Result := Id.run do
     -- only needs the implementation's own snapshots (and which root each op touches)
     let mut firstD : Option String := none
     for (os, ob) in opStrs.zip obs do
+      if (ob.splitOn "PANIC").length > 1 then
+        return ⟨"P", s!"step {stepNo} [{os}] impl [{ob}] violates C15: key=panic"⟩
       match applyOp env t rows (toks os) with
       | .bad why =>
         match firstD with
